@@ -626,7 +626,23 @@ class OsrmStub:
                 dists = dists[:1 + len(ids) // 2]
             elif fault == "fewer_dur":
                 durs = durs[:1 + len(ids) // 2]
-            body = json.dumps({"code": "Ok", "durations": [durs], "distances": [dists]}).encode()
+            # the layout a real OSRM table service gives: with sources=0 one ROW (point -> every stop); with destinations=0
+            # (what the `reversed` branch of osrmgeofilter.cpp asks for, never taken by the server today) one COLUMN; with
+            # neither the full square matrix (only its first row is meaningful here: the rest is served as unreachable).
+            # A server that drops or swaps the query parameter therefore sees what it would see in production.
+            first = data.split(b"\r\n", 1)[0]
+            if b"destinations=0" in first and b"sources=0" not in first:
+                body = json.dumps({"code": "Ok", "durations": [[x] for x in durs], "distances": [[x] for x in dists]}).encode()
+            elif b"sources=0" not in first and fault is None:
+                n1 = len(durs)
+                sq = lambda row: [row] + [[UNREACHABLE] * n1 for _ in range(n1 - 1)]
+                body = json.dumps({"code": "Ok", "durations": sq(durs), "distances": sq(dists)}).encode()
+            else:
+                body = json.dumps({"code": "Ok", "durations": [durs], "distances": [dists]}).encode()
+            # fractional seconds / metres: the server rounds UP (ceil); an integer value t is served as t - 0.8 when asked to
+            if getattr(self, "fraction", False) and fault is None and body.startswith(b'{"code": "Ok", "durations": [[0'):
+                fr = lambda xs: [x if (not isinstance(x, int) or x < 1 or x >= UNREACHABLE) else round(x - 0.8, 1) for x in xs]
+                body = json.dumps({"code": "Ok", "durations": [fr(durs)], "distances": [fr(dists)]}).encode()
             if fault == "status500":
                 self._send(conn, "500 Internal Server Error", b'{"code":"InternalError"}')
             elif fault == "empty":
